@@ -149,9 +149,9 @@ def run_bank(prop, root):
                 res['mutants'] += 1
                 if status == 'fired':
                     res['caught'] += 1
-                elif status == 'error' and m.get('not_analysable'):
-                    # a recorded limit of the analysis: the change re-represents the state the rule reasons about; the
-                    # check answers "cannot analyse" (exit 2), which is not a pass - listed, not hidden
+                elif m.get('not_analysable'):
+                    # a recorded limit of the analysis (meta.json says why): the check answers "cannot analyse" (exit 2) or
+                    # stays silent - listed as a miss, not hidden and not counted as caught
                     res.setdefault('mutants_not_analysable', []).append('%s: %s' % (m['id'], info))
                 else:
                     problems.append('mutant %s not reported: %s %s' % (m['id'], status, info))
